@@ -16,8 +16,8 @@ def main():
     m = {
      "version": 1,
      "setup_cmd": "tools/setup.sh",
-     "hooks": {"guard": "TLX_VERIF",
-               "enable": "drivers are compiled by the checks themselves from /repo's working tree (g++ -I/repo); -DTLX_VERIF enables the guarded hooks listed in source_commits (none needed so far: templates are instantiated with instrumented parameters and the sync primitives are redirected by a force-included shim header)",
+     "hooks": {"guard": "TLX_VERIF_HOOKS",
+               "enable": "drivers are compiled by the checks themselves from /repo's working tree (g++ -I/repo); -DTLX_VERIF_HOOKS enables the guarded hooks listed in source_commits (PS5 step life-cycle events for C04; everything else needs no hook: templates are instantiated with instrumented parameters and the sync primitives are redirected by a force-included shim header)",
                "baseline_off_cmd": "cmake --build /repo/_build && ctest --test-dir /repo/_build -j8 --timeout 900",
                "source_commits": hooks_commits, "add_only": True},
      "engines": [{"name": "tlc", "path": "/opt/veriftools/tla/tla2tools.jar", "serves_properties": sorted(CHECKS),
